@@ -1,5 +1,7 @@
 import CanvasModel.Driver
 import CanvasModel.C17.Spec
+import CanvasModel.C17.BPList
+import CanvasModel.C17.Verdict
 open Canvas Canvas.C17
 
 /-- items: `B w` | `G w y z` | `P w p f` -/
@@ -14,6 +16,19 @@ partial def parseItems : List String → List (Item Float) → Option (List (Ite
   | "P" :: w :: p :: f :: rest, acc => do
     let w ← floatOfHex? w; let p ← floatOfHex? p
     parseItems rest (⟨Ty.penalty, w, 0.0, 0.0, p, f == "1"⟩ :: acc)
+  | _, _ => none
+
+/-- operations of the `BP` lines: `kind list b at` quadruples -/
+partial def parseOps : List String → List BP.Op → Option (List BP.Op)
+  | [], acc => some acc.reverse
+  | kd :: l :: b :: a :: rest, acc => do
+    let l ← l.toNat?; let b ← b.toNat?; let a ← a.toNat?
+    match kd with
+    | "0" => parseOps rest (BP.Op.push l b :: acc)
+    | "1" => parseOps rest (BP.Op.insertBefore l b a :: acc)
+    | "2" => parseOps rest (BP.Op.remove l b :: acc)
+    | "3" => parseOps rest (BP.Op.has l b :: acc)
+    | _ => none
   | _, _ => none
 
 def showND (d : ND Float) : String :=
@@ -36,6 +51,21 @@ def handle : List String → Option String
     let P : Params Float := ⟨← floatOfHex? tol, ← floatOfHex? dl, ← floatOfHex? dfl, ← floatOfHex? dfit, ← floatOfHex? inf⟩
     let items ← parseItems rest []
     some (match best P items lineW with | some d => hexOfFloat d | none => "none")
+  | "VS" :: _loose :: _lineW :: tol :: dl :: dfl :: dfit :: inf :: rest => do
+    let P : Params Float := ⟨← floatOfHex? tol, ← floatOfHex? dl, ← floatOfHex? dfl, ← floatOfHex? dfit, ← floatOfHex? inf⟩
+    let itemToks := rest.takeWhile (· != "R")
+    let posToks := (rest.dropWhile (· != "R")).drop 1
+    let items ← parseItems itemToks []
+    let pos ← posToks.mapM (·.toNat?)
+    some (match structClass P items pos with
+      | none => "ok structure"
+      | some cls => "FAIL " ++ cls ++ " positions " ++ toString pos)
+  | "BP" :: n :: rest => do
+    let n ← n.toNat?
+    let ops ← parseOps rest []
+    some (match BP.run ⟨BP.emptyHeap, BP.emptyHdr, BP.emptyHdr⟩ [] ops with
+      | some (s, obs) => BP.dump n s obs
+      | none => "PANIC")
   | _ => none
 
 def main : IO Unit := runDriver handle
